@@ -203,6 +203,41 @@ def two_roots_case():
     return h
 
 
+def bag_case():
+    """an alternatively mapped container (the mapping exposes its relationship under another name than the constructor
+    argument) or a normally mapped subclass of it, whose elements are also referenced from elsewhere"""
+
+    def h(ctx):
+        ormgen.harness_dao()
+        from krrood.ormatic.dao import to_dao
+
+        pool = [[M.Leaf, M.SubLeaf][ctx.choice("leafclass%d" % j, 2)](ctx.fresh_int("v%d" % j)) for j in range(2)]
+        items = [pool[j] for j in LEAF_SEQS[ctx.choice("items", len(LEAF_SEQS))]]
+        if ctx.flag("labeled"):
+            bag = M.LabeledBag(items, label=ctx.fresh_int("label"))
+        else:
+            bag = M.Bag(items)
+        fav = ctx.choice("favourite", 3) - 1
+        others = [pool[j] for j in LEAF_SEQS[ctx.choice("others", 4)]]
+        root = bag if ctx.flag("bag-is-root") else M.Holder(bag, pool[fav] if fav >= 0 else None, others)
+        back = to_dao(root).from_dao()
+        ctx.observe(type(bag).__name__, type(root).__name__, [index_of_id(pool, x) for x in items], fav, [index_of_id(pool, x) for x in others])
+        ctx.note("nonempty", 1)
+        r, terms = isomorphic(root, back)
+        v = {"same-structure-classes-and-aliasing": r is True}
+        if r is True:
+            v["equal-field-values"] = AND(terms) if terms else True
+        else:
+            ctx.observe(str(r))
+        return v
+
+    return h
+
+
+def index_of_id(xs, o):
+    return next((i for i, x in enumerate(xs) if x is o), -1)
+
+
 def cases(tier, seed):
     ormgen.harness_dao()  # generated once here (parent process) from the current tree; workers inherit it
     n = 2 if tier == "quick" else 3
@@ -220,6 +255,7 @@ def cases(tier, seed):
                                max_paths=200000 if tier == "quick" else 3000000))
     cs.append(Case("rich scalars", rich_case(), validate=2, timeout=600))
     cs.append(Case("two roots, one conversion state", two_roots_case(), validate=2))
+    cs.append(Case("alternatively mapped container and its normally mapped subclass", bag_case(), key="bag", validate=2, timeout=900))
     return cs
 
 
@@ -229,7 +265,8 @@ def describe(tier):
         rule="object graphs over the harness model (DAO layer generated at check time by the current tree's ORMatic): %d nodes (Node / SubNode) with every parent "
         "link incl. self references and cycles, a single-valued reference and an ordered collection (with repeated elements) into a pool of two shared targets "
         "(Leaf / SubLeaf / SubSubLeaf instances, or alternatively mapped Vec objects); a class with scalars of every supported kind; two roots converted with one "
-        "shared state. Shape = bounded symbolic choices, scalar fields = unbounded z3 integers; oracle = bisimulation with identity classes (same classes, sharing, "
+        "shared state; an alternatively mapped container (relationship exposed under another name than the constructor argument) / a normally mapped subclass of it "
+        "whose elements are also referenced from its holder. Shape = bounded symbolic choices, scalar fields = unbounded z3 integers; oracle = bisimulation with identity classes (same classes, sharing, "
         "order, None positions) + equality of all scalar fields decided by the solver. non-trivial = every path converts a graph" % n,
         bounds=dict(nodes=n, pool=2, collection_length="<= %d" % (2 if tier == "quick" else 3), scalars="unbounded integers; enum/datetime/str/float/bool/list-of-str from small pools"),
         outside=["graphs with more than %d nodes" % n, "custom TypeDecorator columns", "self-referential collections (the generator rejects them, see C06)"],
